@@ -1,23 +1,27 @@
 # plan and claim for C08 (SM2 key agreement); J and both are injected by driver/plan.py
 _CFG = ["avx2", "noadx", "purego"]
+_CFG_EC = ["avx2", "avx", "noadx", "purego"]   # avx: cpu.avx2=off selects the SSE table-select / point-routine epilogues of sm2ec
 
 PLAN = dict(
     level="exploration",
     rule="a case is one complete protocol session (static and ephemeral scalars, identities, key length, confirmation mode, "
          "API path) or one candidate peer point presented at every protocol step; sessions come from a grid of structured "
          "edge scalars (1, 2, n-2, n-1, limb and 2^k boundaries), from static keys constructed so that the unreduced implicit "
-         "signature d + x~*r hits n-1, n (t=0, U=V=O), n+1, 2^256-1, 2^256, ..., from ephemeral points whose x coordinate is "
+         "signature d + x~*r hits n-1, n (t=0, U=V=O), n+1, 2^256-1, 2^256, ..., from static keys tied to the ephemeral key "
+         "(P = [x~]R: the peer's addition is a doubling; P = -[x~]R: the sum is O and both must refuse), from ephemeral points whose x coordinate is "
          "extreme in the bits x~ keeps (bounded search over small multiples of G), from identity lengths 0 (default) .. 8191 "
          "and 8192+ (must fail), key lengths 1..200 and a few longer, and from seeded random draws; distinct = distinct class "
          "keys (generator / confirmation mode / key-length class / identity classes / API path), none is trivial",
-    jobs=both("c08.agree", _CFG, shards=(8, 16), floor=100)
+    jobs=both("c08.agree", _CFG_EC, shards=(8, 16), floor=100)
          + both("c08.confirm", _CFG, shards=(4, 8), floor=10)
-         + both("c08.peers", _CFG, shards=(4, 8), floor=50)
-         + both("c08.ecdh", _CFG, shards=(4, 8), floor=50)
+         + both("c08.peers", _CFG_EC, shards=(4, 8), floor=50)
+         + both("c08.ecdh", _CFG_EC, shards=(4, 8), floor=50)
          + both("c08.implicitsig", _CFG, shards=(1, 2), floor=20),
     assumptions=["harness/ref/sm2kx (GB/T 32918.3 on math/big affine arithmetic of ref/ec and the bitwise SM3 of ref/sm3) is right: "
                  "validated at every start against the recommended-curve example of GB/T 32918.5 / GM/T 0003.5 (public keys, ZA, ZB, "
                  "RA, RB, key, S1/SB, S2/SA) and the three vectors of the repository's tests, and by U = V on every session",
+                 "in three of four sessions the caller's buffers (byte inputs of every constructor, identities, returned slices) are "
+                 "overwritten (zeros / 0xFF / random) as soon as the call has returned; results must still equal the reference of the original values",
                  "ephemeral scalars are injected through the scripted random source (32 bytes consumed, checked), so both "
                  "implementations and the reference see identical inputs"],
 )
@@ -33,7 +37,7 @@ CLAIM = dict(
          "flag is; invalid peer points (infinity, off-curve, other curve, coordinate >= p incl. non-canonical forms of valid "
          "points, negative/oversized integers, malformed encodings, all single-bit flips of valid encodings) are presented at "
          "each step where a peer value enters (static key, RA, RB, byte decoders) and must yield an error, never a key or a "
-         "panic. Exploration over the listed generators, on the ADX, non-ADX and pure-Go back ends.",
+         "panic. Exploration over the listed generators, on the ADX, non-ADX, non-AVX2 (SSE) and pure-Go back ends.",
     design_ref="DESIGN.md 6 (C08)",
     note="trusted: harness/ref/sm2kx, ref/ec, ref/sm3, math/big; an empty (absent) confirmation value means 'no confirmation' "
          "by the API's contract and is not treated as a forgery; nil coordinates and foreign Curve objects are caller errors, not peer data",
